@@ -1,5 +1,275 @@
-/- Model for C16 (core Lean only, no Mathlib). -/
-import OdcGeo.Model.IO
+/-
+Model for C16 — GeoBox and bounding-box set operations on a common pixel grid
+(core Lean only, no Mathlib).
+
+Mirrors, function by function,
+  odc/geo/geom.py    `BoundingBox.round/.transform/__or__/__and__`, `bbox_union`, `bbox_intersection`
+  odc/geo/math.py    `maybe_zero`, `split_float`, `is_almost_int`, `split_translation`
+  odc/geo/geobox.py  `pixel_translation`, `bounding_box_in_pixel_domain`,
+                     `geobox_union_conservative`, `geobox_intersection_conservative`,
+                     `GeoBox.__or__/__and__/overlap_roi/enclosing/snap_to/translate_pix`
+Doubles are exact rationals (`Rat`), Python ints are `Int`.  A CRS is an opaque tag
+(`Option Nat`, `none` = no CRS): only equality of CRSs is ever consulted by this code.
+-/
+import OdcGeo.Model.Affine
 namespace OdcGeo.C16
+
+/-! ### small numeric helpers (math.py) -/
+
+/-- `abs(x)` -/
+def qabs (x : Rat) : Rat := if x < 0 then -x else x
+
+/-- C `fmod(x, 1.0)`: `x - trunc(x)`, carries the sign of `x`. -/
+def fmod1 (x : Rat) : Rat := if 0 ≤ x then x - x.floor else x - x.ceil
+
+/-- `maybe_zero(x, tol)`  (math.py:32-36) -/
+def maybeZero (x tol : Rat) : Rat := if qabs x < tol then 0 else x
+
+/-- `split_float(x)` for finite `x` → `(whole, fraction)`  (math.py:39-61) -/
+def splitFloat (x : Rat) : Rat × Rat :=
+  let part := fmod1 x
+  let whole := x - part
+  if part > 1 / 2 then (whole + 1, part - 1)
+  else if part < -(1 / 2) then (whole - 1, part + 1)
+  else (whole, part)
+
+/-- `is_almost_int(x, tol)` for finite `x`  (math.py:156-169) -/
+def isAlmostInt (x tol : Rat) : Bool :=
+  let f := qabs (fmod1 x)
+  let f := if f > 1 / 2 then 1 - f else f
+  decide (f < tol)
+
+/-- Python `round(x)` of a float: nearest integer, ties to even. -/
+def pyRound (x : Rat) : Int :=
+  let f := x.floor
+  let r := x - f
+  if r < 1 / 2 then f
+  else if r > 1 / 2 then f + 1
+  else if f % 2 = 0 then f else f + 1
+
+/-! ### `numpy.isclose` with its default `rtol=1e-05`, `atol=1e-08`
+
+`isclose(x, y)` is `abs(x - y) <= atol + rtol * abs(y)`.  The right-hand sides for `y = 1`
+and `y = 0`, as the exact values of the doubles numpy computes (the harness recomputes them
+from the installed numpy on every run and compares). -/
+
+/-- `1e-08 + 1e-05 * abs(1.0)` as a double. -/
+def tolOne : Rat := (1477215265422661 : Rat) / 147573952589676412928
+/-- `1e-08 + 1e-05 * abs(0.0)` as a double (= the double `1e-08`). -/
+def tolZero : Rat := (3022314549036573 : Rat) / 302231454903657293676544
+/-- the double `1e-8`: default `tol` of `bounding_box_in_pixel_domain` / `overlap_roi`, and the
+literal used by `snap_to`. -/
+def tolPix : Rat := (3022314549036573 : Rat) / 302231454903657293676544
+
+def closeOne (x : Rat) : Bool := decide (qabs (x - 1) ≤ tolOne)
+def closeZero (x : Rat) : Bool := decide (qabs x ≤ tolZero)
+
+/-! ### `BoundingBox` (geom.py:41-330) over any carrier with `min`/`max` -/
+
+structure BBox (α : Type) where
+  left : α
+  bottom : α
+  right : α
+  top : α
+  crs : Option Nat
+  deriving DecidableEq, Repr
+
+section
+variable {α : Type} [Min α] [Max α]
+
+/-- one step of the loop of `bbox_union` (geom.py:1344-1354) -/
+def unionStep (acc bb : BBox α) : Res (BBox α) :=
+  if acc.crs ≠ bb.crs then .error .crsMismatch
+  else .ok ⟨min bb.left acc.left, min bb.bottom acc.bottom, max bb.right acc.right,
+            max bb.top acc.top, acc.crs⟩
+
+/-- one step of the loop of `bbox_intersection` (geom.py:1371-1381) -/
+def interStep (acc bb : BBox α) : Res (BBox α) :=
+  if acc.crs ≠ bb.crs then .error .crsMismatch
+  else .ok ⟨max bb.left acc.left, max bb.bottom acc.bottom, min bb.right acc.right,
+            min bb.top acc.top, acc.crs⟩
+
+def foldRes (step : BBox α → BBox α → Res (BBox α)) (acc : BBox α) : List (BBox α) → Res (BBox α)
+  | [] => .ok acc
+  | bb :: rest => match step acc bb with
+    | .error e => .error e
+    | .ok acc' => foldRes step acc' rest
+
+/-- `bbox_union(bbs)`  (geom.py:1330-1356) -/
+def bboxUnion : List (BBox α) → Res (BBox α)
+  | [] => .error .valueError
+  | bb :: bbs => foldRes unionStep bb bbs
+
+/-- `bbox_intersection(bbs)`  (geom.py:1359-1383) -/
+def bboxIntersection : List (BBox α) → Res (BBox α)
+  | [] => .error .valueError
+  | bb :: bbs => foldRes interStep bb bbs
+
+/-- `BoundingBox.__or__` -/
+def BBox.or (a b : BBox α) : Res (BBox α) := bboxUnion [a, b]
+/-- `BoundingBox.__and__` -/
+def BBox.and (a b : BBox α) : Res (BBox α) := bboxIntersection [a, b]
+end
+
+/-- `BoundingBox.round()`  (geom.py:299-306) -/
+def BBox.round (bb : BBox Rat) : BBox Int :=
+  ⟨bb.left.floor, bb.bottom.floor, bb.right.ceil, bb.top.ceil, bb.crs⟩
+
+/-- `BoundingBox.points` : `itertools.product((x0, x1), (y0, y1))` -/
+def BBox.points (bb : BBox Rat) : List (Rat × Rat) :=
+  [(bb.left, bb.bottom), (bb.left, bb.top), (bb.right, bb.bottom), (bb.right, bb.top)]
+
+def minL : Rat → List Rat → Rat
+  | x, [] => x
+  | x, y :: ys => minL (min x y) ys
+def maxL : Rat → List Rat → Rat
+  | x, [] => x
+  | x, y :: ys => maxL (max x y) ys
+
+/-- bounding box of a non-empty point list (`min(xx), min(yy), max(xx), max(yy)`;
+also shapely's `.bounds` of the vertices). -/
+def bboxOfPoints (p : Rat × Rat) (ps : List (Rat × Rat)) (crs : Option Nat) : BBox Rat :=
+  ⟨minL p.1 (ps.map (·.1)), minL p.2 (ps.map (·.2)), maxL p.1 (ps.map (·.1)), maxL p.2 (ps.map (·.2)), crs⟩
+
+/-- `BoundingBox.transform(A)`  (geom.py:199-209) -/
+def BBox.transform (bb : BBox Rat) (A : Aff) : BBox Rat :=
+  bboxOfPoints (A.apply (bb.left, bb.bottom))
+    [A.apply (bb.left, bb.top), A.apply (bb.right, bb.bottom), A.apply (bb.right, bb.top)] bb.crs
+
+/-! ### GeoBox: the minimal record this property needs -/
+
+structure GeoBox where
+  ny : Int
+  nx : Int
+  aff : Aff
+  crs : Option Nat
+  deriving DecidableEq, Repr
+
+/-- `GeoBox.is_empty()` : `0 in shape` -/
+def GeoBox.isEmpty (g : GeoBox) : Bool := g.ny == 0 || g.nx == 0
+
+/-- `GeoBox.translate_pix(tx, ty)` = `self * Affine.translation(tx, ty)`  (geobox.py:1015-1022) -/
+def GeoBox.translatePix (g : GeoBox) (tx ty : Rat) : GeoBox :=
+  { g with aff := g.aff * Aff.translation tx ty }
+
+/-- `pixel_translation(a, b)`  (geobox.py:1108-1134): `~b.affine * a.affine` must be a pure
+translation up to the `isclose` thresholds.  A degenerate `b.affine` makes `~` raise
+`TransformNotInvertibleError` (reported as `valueError`). -/
+def pixelTranslation (a b : GeoBox) : Res (Rat × Rat) :=
+  if a.crs ≠ b.crs then .error .valueError
+  else match b.aff.inv? with
+    | .error e => .error e
+    | .ok binv =>
+      let m := binv * a.aff
+      if closeOne m.a && closeZero m.b && closeZero m.d && closeOne m.e then .ok (m.c, m.f)
+      else .error .valueError
+
+/-- `bounding_box_in_pixel_domain(geobox, reference, tol)`  (geobox.py:1137-1159) -/
+def bboxInPixelDomain (g ref : GeoBox) (tol : Rat) : Res (BBox Int) :=
+  match pixelTranslation g ref with
+  | .error e => .error e
+  | .ok (tx, ty) =>
+    if !(isAlmostInt tx tol && isAlmostInt ty tol) then .error .valueError
+    else
+      let tx := pyRound tx
+      let ty := pyRound ty
+      .ok ⟨tx, ty, tx + g.nx, ty + g.ny, none⟩
+
+/-- the generator `bounding_box_in_pixel_domain(g, reference=reference) for g in geoboxes`,
+fully consumed (first failure wins). -/
+def allBBoxes (ref : GeoBox) (tol : Rat) : List GeoBox → Res (List (BBox Int))
+  | [] => .ok []
+  | g :: gs => match bboxInPixelDomain g ref tol with
+    | .error e => .error e
+    | .ok bb => match allBBoxes ref tol gs with
+      | .error e => .error e
+      | .ok bbs => .ok (bb :: bbs)
+
+/-- `GeoBox(shape=bbox.shape, affine=reference.affine * Affine.translation(*bbox[:2]), crs=reference.crs)` -/
+def geoboxOfPixBBox (ref : GeoBox) (bb : BBox Int) : GeoBox :=
+  ⟨bb.top - bb.bottom, bb.right - bb.left, ref.aff * Aff.translation bb.left bb.bottom, ref.crs⟩
+
+/-- `geobox_union_conservative(geoboxes)`  (geobox.py:1162-1178) -/
+def geoboxUnionConservative : List GeoBox → Res GeoBox
+  | [] => .error .valueError
+  | ref :: rest =>
+    match allBBoxes ref tolPix (ref :: rest) with
+    | .error e => .error e
+    | .ok bbs => match bboxUnion bbs with
+      | .error e => .error e
+      | .ok bb => .ok (geoboxOfPixBBox ref bb)
+
+/-- "standardise empty geobox representation"  (geobox.py:1196-1212) -/
+def normEmpty (bb : BBox Int) : BBox Int :=
+  let bb := if bb.left > bb.right then { bb with right := bb.left } else bb
+  if bb.bottom > bb.top then { bb with top := bb.bottom } else bb
+
+/-- `geobox_intersection_conservative(geoboxes)`  (geobox.py:1181-1216) -/
+def geoboxIntersectionConservative : List GeoBox → Res GeoBox
+  | [] => .error .valueError
+  | ref :: rest =>
+    match allBBoxes ref tolPix (ref :: rest) with
+    | .error e => .error e
+    | .ok bbs => match bboxIntersection bbs with
+      | .error e => .error e
+      | .ok bb => .ok (geoboxOfPixBBox ref (normEmpty bb))
+
+/-- `GeoBox.__or__` -/
+def GeoBox.or (a b : GeoBox) : Res GeoBox := geoboxUnionConservative [a, b]
+/-- `GeoBox.__and__` -/
+def GeoBox.and (a b : GeoBox) : Res GeoBox := geoboxIntersectionConservative [a, b]
+
+/-- A normalised 2-D ROI `numpy.s_[y0:y1, x0:x1]`. -/
+structure Roi where
+  y0 : Int
+  y1 : Int
+  x0 : Int
+  x1 : Int
+  deriving DecidableEq, Repr
+
+/-- `GeoBox.overlap_roi(other, tol)`  (geobox.py:723-737, as repaired: the stop of each slice
+is clamped at its start, so that an `other` lying wholly before `self` gives an empty slice
+instead of a negative stop that numpy wraps around). -/
+def GeoBox.overlapRoi (self other : GeoBox) (tol : Rat) : Res Roi :=
+  match bboxInPixelDomain other self tol with
+  | .error e => .error e
+  | .ok bb =>
+    let x0 := max 0 bb.left
+    let y0 := max 0 bb.bottom
+    let x1 := max x0 (min bb.right self.nx)
+    let y1 := max y0 (min bb.top self.ny)
+    .ok ⟨y0, y1, x0, x1⟩
+
+/-- `GeoBox.overlap_roi` before the repair (negative stop possible); kept for the witness of the
+defect only. -/
+def GeoBox.overlapRoiUnrepaired (self other : GeoBox) (tol : Rat) : Res Roi :=
+  match bboxInPixelDomain other self tol with
+  | .error e => .error e
+  | .ok bb => .ok ⟨max 0 bb.bottom, min bb.top self.ny, max 0 bb.left, min bb.right self.nx⟩
+
+/-- `GeoBox.enclosing(region)`  (geobox.py:686-706) for a region with a CRS whose vertices,
+expressed in the CRS of the GeoBox, are `p :: ps` (a `BoundingBox` region contributes its four
+corners; re-projection from another CRS is pyproj's and happens before this point).
+`region_crs = none` is the "Must supply geo-registered region" error. -/
+def GeoBox.enclosing (g : GeoBox) (regionCrs : Option Nat) (p : Rat × Rat) (ps : List (Rat × Rat)) :
+    Res GeoBox :=
+  if regionCrs = none then .error .valueError
+  else if g.crs = none then .error .assertion      -- `assert self._crs is not None` in `project`
+  else match g.aff.inv? with
+    | .error e => .error e
+    | .ok w2p =>
+      let pix := (bboxOfPoints (w2p.apply p) (ps.map w2p.apply) none).round
+      let nx := max 1 (pix.right - pix.left)
+      let ny := max 1 (pix.top - pix.bottom)
+      .ok ⟨ny, nx, (g.translatePix pix.left pix.bottom).aff, g.crs⟩
+
+/-- `split_translation(t)`'s sub-pixel part followed by `maybe_zero(·, 1e-8)` -/
+def subpix (t : Rat) : Rat := maybeZero (splitFloat t).2 tolPix
+
+/-- `GeoBox.snap_to(other)`  (geobox.py:908-923) -/
+def GeoBox.snapTo (self other : GeoBox) : Res GeoBox :=
+  match pixelTranslation other self with
+  | .error e => .error e
+  | .ok (tx, ty) => .ok (self.translatePix (subpix tx) (subpix ty))
 
 end OdcGeo.C16
